@@ -707,7 +707,7 @@ CLAIMED['C04'] = dict(
                   "implementation differential runs (needed_addresses and python_code, exact; read-trace sets per "
                   "evaluate call on generated DAG workbooks); an oracle on real openpyxl workbooks compiled by "
                   "ExcelCompiler with the two run-time read paths wrapped",
-        text="Machine-checked (Coq 8.16, 18 theorems in coq/Props/C04.v, all closed under the global context; none is "
+        text="Machine-checked (Coq 8.16, 19 theorems in coq/Props/C04.v, all closed under the global context; none is "
              "partial). CODE HALF, FULL for the emitter model, all expressions of any size: C04_cover (for every "
              "expression whose references are written - no range-union between computed references, nothing outside "
              "the emitter model - every address the compiled code can read through _C_/_R_ is among the scanned "
@@ -730,7 +730,9 @@ CLAIMED['C04'] = dict(
              "eval/build/evaluate/run return the same state and values as the originals, no hypothesis), "
              "C04_trace_edges (every (reader, read) pair is an edge read -> reader, the reader is the evaluated node "
              "or an ancestor), C04_trace_complete (a computed node reads all its precedents, a cached node or input "
-             "reads nothing). COMPOSITION: C04_reads_are_edges (= C04_cover composed with the graph: if the declared "
+             "reads nothing), C04_trace_determines (a cache that agrees on the evaluated node and on every cell of "
+             "the trace gives the same value and the same trace: the trace contains every cache entry the "
+             "evaluation depends on). COMPOSITION: C04_reads_are_edges (= C04_cover composed with the graph: if the declared "
              "precedents of each formula cell contain the nodes named by needed(e), every _C_/_R_ read of the "
              "emitted code is the address of a node with an edge to the cell, or an intersection of such), "
              "C04_reads_are_graph_edges (+ C04_edges: that node is built and the dep_graph edge exists after any "
